@@ -32,6 +32,70 @@ Inductive ival :=
 | IVarAbsent                         (* a variable without a runtime value *)
 | IInvalid.                          (* not an input value at all (a number outside IEEE 754, a foreign Go value) *)
 
+(** ** helpers named so that proofs can speak about them *)
+Section OptMap.
+  Context {A B : Type}.
+  Variable f : A -> option B.
+  Fixpoint opt_map (l : list A) : option (list B) :=
+    match l with
+    | [] => Some []
+    | x :: r => match f x, opt_map r with Some c, Some cs => Some (c :: cs) | _, _ => None end
+    end.
+End OptMap.
+
+Definition ref_default (d : gval) : gval := match d with GNullSentinel => GNil | _ => d end.
+
+Definition ref_hook (h : hook) (m : list (name * gval)) : option gval :=
+  match h with
+  | HNone => Some (GMap m)
+  | HWrap tag => Some (GTagged tag (GMap m))
+  | HFail => None
+  end.
+
+(** 3.10, per declared field: provided (and not an absent variable) -> coerced; otherwise the
+    default if there is one; otherwise an error if non-null; otherwise no entry.  [subs] pairs each
+    provided field with (is it an absent variable, its coercion). *)
+Definition ref_field_step (subs : list (name * (bool * (sty -> bool -> option gval))))
+           (acc : option (list (name * gval))) (f : name * in_def) : option (list (name * gval)) :=
+  match acc with
+  | None => None
+  | Some m =>
+      let (fname, fd) := f in
+      match aget fname subs with
+      | Some (false, co) =>
+          match co (in_type fd) true with
+          | Some c => Some (mset fname c m)
+          | None => None
+          end
+      | _ =>
+          match in_default fd with
+          | Some d => Some (mset fname (ref_default d) m)
+          | None => if is_nonnull (in_type fd) then None else Some m
+          end
+      end
+  end.
+
+(** a complete field map: declared keys only, each once (sorted), each value of its field's type,
+    every field that has a default or is non-null present *)
+Section MapOk.
+  Variable cf : gval -> sty -> bool.
+  Variable fields : list (name * in_def).
+  Fixpoint entries_ok (l : list (name * gval)) : bool :=
+    match l with
+    | [] => true
+    | (k, x) :: r =>
+        match aget k fields with
+        | Some fd => cf x (in_type fd)
+        | None => false
+        end && entries_ok r
+    end.
+  Definition field_present (kvs : list (name * gval)) (f : name * in_def) : bool :=
+    ahas (fst f) kvs
+    || (negb (is_nonnull (in_type (snd f))) && match in_default (snd f) with None => true | Some _ => false end).
+  Definition map_ok (kvs : list (name * gval)) : bool :=
+    keys_sorted kvs && entries_ok kvs && forallb (field_present kvs) fields.
+End MapOk.
+
 Section Spec.
   Variable E : env.
   Variable dt : bytes -> option bytes.     (* RFC 3339: [Some rendering] iff the string is a valid date-time *)
@@ -85,15 +149,6 @@ Section Spec.
     | _, _ => None
     end.
 
-  Definition ref_default (d : gval) : gval := match d with GNullSentinel => GNil | _ => d end.
-
-  Definition ref_hook (h : hook) (m : list (name * gval)) : option gval :=
-    match h with
-    | HNone => Some (GMap m)
-    | HWrap tag => Some (GTagged tag (GMap m))
-    | HFail => None
-    end.
-
   Definition is_absent (v : ival) : bool := match v with IVarAbsent => true | _ => false end.
 
   Fixpoint dup_names (l : list name) : bool :=
@@ -121,15 +176,7 @@ Section Spec.
           | StList t' =>
               match v with
               | IList items =>
-                  option_map GList
-                    ((fix go (l : list ival) : option (list gval) :=
-                        match l with
-                        | [] => Some []
-                        | x :: r => match ref_coerce tr x t' false, go r with
-                                    | Some c, Some cs => Some (c :: cs)
-                                    | _, _ => None
-                                    end
-                        end) items)
+                  option_map GList (opt_map (fun x => ref_coerce tr x t' false) items)
               | _ => if wrap then option_map (fun c => GList [c]) (on_ty t' true) else None
               end
           | StNamed n =>
@@ -150,26 +197,7 @@ Section Spec.
                       let subs := map (fun p => match p with (k, x) => (k, (is_absent x, ref_coerce tr x)) end) kvs in
                       if dup_names (map fst kvs) || negb (forallb (fun p => ahas (fst p) fields) kvs) then None
                       else
-                        match fold_left
-                          (fun (acc : option (list (name * gval))) (f : name * in_def) =>
-                             match acc with
-                             | None => None
-                             | Some m =>
-                                 let (fname, fd) := f in
-                                 match aget fname subs with
-                                 | Some (false, co) =>
-                                     match co (in_type fd) true with
-                                     | Some c => Some (mset fname c m)
-                                     | None => None
-                                     end
-                                 | _ =>
-                                     match in_default fd with
-                                     | Some d => Some (mset fname (ref_default d) m)
-                                     | None => if is_nonnull (in_type fd) then None else Some m
-                                     end
-                                 end
-                             end)
-                          fields (Some [])
+                        match fold_left (ref_field_step subs) fields (Some [])
                         with Some m => ref_hook h m | None => None end
                   | _ => None
                   end
@@ -273,9 +301,7 @@ Section Spec.
           | StNonNull t' => on_ty t'
           | StList t' =>                              (* always a list at a list type *)
               match g with
-              | GList items =>
-                  (fix go (l : list gval) : bool :=
-                     match l with [] => true | x :: r => conforms x t' && go r end) items
+              | GList items => forallb (fun x => conforms x t') items
               | _ => false
               end
           | StNamed n =>
@@ -283,26 +309,9 @@ Section Spec.
               | Some (TScalar k) => scalar_conforms k g
               | Some (TEnum vals) => existsb (fun p => gval_eqb (snd p) g) vals    (* a declared value *)
               | Some (TInput fields h) =>
-                  (* a complete field map: declared keys only, each once (sorted), each value of
-                     its field's type, every field that has a default or is non-null present *)
-                  let map_ok (kvs : list (name * gval)) : bool :=
-                    keys_sorted kvs
-                    && (fix go (l : list (name * gval)) : bool :=
-                          match l with
-                          | [] => true
-                          | (k, x) :: r =>
-                              match aget k fields with
-                              | Some fd => conforms x (in_type fd)
-                              | None => false
-                              end && go r
-                          end) kvs
-                    && forallb (fun f : name * in_def =>
-                                  ahas (fst f) kvs
-                                  || (negb (is_nonnull (in_type (snd f)))
-                                      && match in_default (snd f) with None => true | Some _ => false end)) fields in
                   match h, g with
-                  | HNone, GMap kvs => map_ok kvs
-                  | HWrap tag, GTagged tag' (GMap kvs) => bytes_eqb tag tag' && map_ok kvs
+                  | HNone, GMap kvs => map_ok conforms fields kvs
+                  | HWrap tag, GTagged tag' (GMap kvs) => bytes_eqb tag tag' && map_ok conforms fields kvs
                   | _, _ => false
                   end
               | None => false
@@ -341,3 +350,13 @@ Section Spec.
 
   Definition env_ok : bool := forallb (fun p => tdef_ok (snd p)) E.
 End Spec.
+
+(** what a Go value in Request.VariableValues satisfies by construction: an [int] is a 64-bit
+    integer, a map has each key once *)
+Fixpoint jval_ok (j : jval) : bool :=
+  match j with
+  | JInt z => Z.leb (- 2 ^ 63) z && Z.leb z (2 ^ 63 - 1)
+  | JList l => forallb jval_ok l
+  | JObj kvs => negb (dup_names (map fst kvs)) && forallb (fun p => jval_ok (snd p)) kvs
+  | _ => true
+  end.
